@@ -183,10 +183,19 @@ Section Sim.
     repeat first [ apply refines_hext | rstep2 ].
   Qed.
 
+  (* where C15 gives up (`if mf || df then out_of_fuel`) the wrapper runs its own skeletons of the two extension
+     parsers; where C15 goes on, the wrapper's extra step is `ret tt` *)
+  Lemma refines_ext_skeleton {A} (c : bool) (X : @M St unit) (K' K : @M St A) : refines K' K ->
+    refines (bind (if c then X else ret tt) (fun _ => K')) (if c then out_of_fuel else K).
+  Proof.
+    intros H. destruct c; [apply refines_oof_r|].
+    intros s r E Hr Hn. apply (H s r); [|exact Hr|exact Hn]. exact E.
+  Qed.
+
   Lemma refines_hpps fuel spsmap : refines (hparse_pps_d R fuel spsmap) (hparse_pps R spsmap).
   Proof.
     unfold hparse_pps_d, hparse_pps, hparse_pps_range_d, hparse_pps_range, hparse_pps_scc_d, hparse_pps_scc.
-    repeat first [ apply refines_hext | rstep2 ].
+    repeat first [ apply refines_hext | apply refines_ext_skeleton | rstep2 ].
   Qed.
 
   Lemma refines_hslice bib fuel spsmap ppsmap :
@@ -259,16 +268,14 @@ Proof.
   unfold run. rewrite (refines_hslice ER er_bib (hevc_fuel nalu) spsmap ppsmap (rinit nalu) _ eq_refl Hr Hm). reflexivity.
 Qed.
 
-(* PPS: the wrapper may itself be OutOfFuel (unmodelled extension); where it is not, it equals C15's result
-   as soon as C15's is defined *)
+(* PPS: where C15's model is defined (no multilayer / 3D extension, counts below its caps) the wrapper equals it *)
 Lemma c16_hparse_pps_agrees spsmap nalu :
-  c16_hparse_pps spsmap nalu <> OutOfFuel -> hparse_pps_er spsmap nalu <> OutOfFuel ->
-  c16_hparse_pps spsmap nalu = hparse_pps_er spsmap nalu.
+  hparse_pps_er spsmap nalu <> OutOfFuel -> c16_hparse_pps spsmap nalu = hparse_pps_er spsmap nalu.
 Proof.
-  intros Hw Hn. unfold c16_hparse_pps, hparse_pps_er in *.
+  intros Hn. unfold c16_hparse_pps, hparse_pps_er in *.
   assert (Hr : okerr (run (hparse_pps_d ER (hevc_fuel nalu) spsmap) (rinit nalu))).
-  { destruct (c16_hparse_pps_total spsmap nalu) as [E|[E|(a & E & _)]]; unfold c16_hparse_pps in E;
-      [rewrite E; left; reflexivity|congruence|rewrite E; right; eauto]. }
+  { destruct (c16_hparse_pps_total spsmap nalu) as [E|(a & E & _)]; unfold c16_hparse_pps in E; rewrite E;
+      [left; reflexivity|right; eauto]. }
   apply run_okerr in Hr.
   assert (Hm : hparse_pps ER spsmap (rinit nalu) <> OutOfFuel).
   { intros X. apply Hn. unfold run. rewrite X. reflexivity. }
